@@ -64,6 +64,12 @@ type Task struct {
 	Background bool // spawned by instrumented code via `go`
 	unlockHooks []func()
 	FinishSeq  uint64
+	held       []heldLock
+}
+
+type heldLock struct {
+	addr unsafe.Pointer
+	seq  uint64
 }
 
 // FailureKind enumerates simulator-detected failures.
@@ -760,4 +766,39 @@ func RunUnlockHooks() {
 	for _, h := range hs {
 		h()
 	}
+}
+
+// NoteLock / NoteUnlock let the mutex shim record which locks the current task holds and since when
+// (event sequence value at acquisition).
+func NoteLock(addr unsafe.Pointer) {
+	if w := W; w != nil && w.cur != nil {
+		w.cur.held = append(w.cur.held, heldLock{addr, w.evseq})
+	}
+}
+
+func NoteUnlock(addr unsafe.Pointer) {
+	w := W
+	if w == nil || w.cur == nil {
+		return
+	}
+	h := w.cur.held
+	for i := len(h) - 1; i >= 0; i-- {
+		if h[i].addr == addr {
+			w.cur.held = append(h[:i], h[i+1:]...)
+			return
+		}
+	}
+}
+
+// HeldSince returns the event sequence value at which the current task acquired the most recently
+// acquired lock it still holds (the current value if it holds none).
+func HeldSince() uint64 {
+	w := W
+	if w == nil || w.cur == nil {
+		return 0
+	}
+	if n := len(w.cur.held); n > 0 {
+		return w.cur.held[n-1].seq
+	}
+	return w.evseq
 }
